@@ -24,7 +24,7 @@ structure Acc (V : Type) where
 def Acc.reset (op : String) (a : Acc V) (arg : V) : Acc V :=
   match op with
   | "sum" | "max" | "min" | "count" => { a with hasValue := false, value := zero }
-  | "avg" => { a with hasValue := false, sum := zero, count := zero }
+  | "avg" => { a with hasValue := false, mean := zero, count := zero }
   | "group" => { a with hasValue := false }
   | "stddev" | "stdvar" => { a with hasValue := false, count := zero, mean := zero, value := zero }
   | "quantile" => { a with hasValue := false, arg := arg, points := [] }
@@ -37,7 +37,9 @@ def Acc.feed (op : String) (a : Acc V) (v : V) : Acc V :=
   | "max" => { a with hasValue := true, value := if !a.hasValue || lt a.value v || isNaN a.value then v else a.value }
   | "min" => { a with hasValue := true, value := if !a.hasValue || gt a.value v || isNaN a.value then v else a.value }
   | "count" => { a with hasValue := true, value := add a.value one }
-  | "avg" => { a with hasValue := true, count := add a.count one, sum := add a.sum v }
+  | "avg" =>
+    let r := addToMean (a.mean, a.count) v
+    { a with hasValue := true, count := r.2, mean := r.1 }
   | "group" => { a with hasValue := true }
   | "stddev" | "stdvar" =>
     if !a.hasValue then { a with hasValue := true, count := one, mean := v, value := zero }
@@ -53,7 +55,7 @@ def Acc.feed (op : String) (a : Acc V) (v : V) : Acc V :=
 def Acc.val (op : String) (a : Acc V) : V :=
   match op with
   | "sum" | "max" | "min" | "count" => a.value
-  | "avg" => div a.sum a.count
+  | "avg" => a.mean
   | "group" => one
   | "stddev" => sqrt (div a.value a.count)
   | "stdvar" => div a.value a.count
